@@ -198,3 +198,36 @@ def register(reg):
         src = _ast.unparse(cls.methods["check_host_trust"][-1].body[-1])
         out.append(("check_host_trust-body", src == "return host_is_trusted(environ.get('HTTP_HOST'), self.trusted_hosts)", src))
         return out
+
+    # ---- check_pin_trust: the cookie verification itself (second contract on the same function) -----------
+    from pyvc.values import VBuiltin as _VB2, VDict as _VD2
+
+    def _parse_cookie_stub(interp, a, k, n):
+        # parse_cookie(environ): a MultiDict of the request's cookies -- modelled as an arbitrary str -> str map
+        return interp.fresh("Dict[str, str]", "cookies")
+    reg.overrides["werkzeug/debug/__init__.py:parse_cookie"] = lambda interp: _VB2("parse_cookie", _parse_cookie_stub)
+    reg.overrides["werkzeug/debug/__init__.py:PIN_TIME"] = lambda interp: interp.const(60 * 60 * 24 * 7)
+    AppP = reg.model("DebuggedApplicationPin", cls="werkzeug/debug/__init__.py:DebuggedApplication",
+                     fields={"pin": "Optional[str]", "pin_cookie_name": "str",
+                             "g_val": "Optional[str]", "g_hash": "str", "g_split": "bool", "g_ts_ok": "bool"})
+    reg.contract(
+        "werkzeug/debug/__init__.py:DebuggedApplication.check_pin_trust#verify", prop=P, self_model=AppP,
+        params={"environ": "opaque:environ"},
+        assumes=["not self.g_split and not self.g_ts_ok"],
+        ghost_after={
+            "val = parse_cookie(environ).get(self.pin_cookie_name)": ["self.g_val = val"],
+            "ts_str, pin_hash = val.split('|', 1)": ["self.g_hash = pin_hash", "self.g_split = True"],
+            "ts = int(ts_str)": ["self.g_ts_ok = True"],
+        },
+        ensures=[
+            "implies(self.pin is None, result is True)",
+            # PIN set: trusted only with a cookie  <integer timestamp>|<hash of the CURRENT pin>
+            "implies(self.pin is not None and result is True, self.g_val is not None and '|' in self.g_val and "
+            "        self.g_split and self.g_ts_ok and self.g_hash == uf_hash_pin(self.pin))",
+            # a well-formed cookie carrying another hash (the PIN changed) is reported as None, so that it is counted
+            "implies(self.pin is not None, (result is None) == (self.g_split and self.g_ts_ok and self.g_hash != uf_hash_pin(self.pin)))",
+            # missing or malformed cookie: plain False
+            "implies(self.pin is not None and (self.g_val is None or not ('|' in self.g_val) or not self.g_ts_ok), result is False)",
+        ],
+        raises={},
+    )
